@@ -102,6 +102,9 @@ class Checker:
             try:
                 if fn.startswith('lemma '):
                     vc = driver.gen_lemma(prog, cs, fn[6:])
+                elif fn.startswith('iface|'):
+                    _, impl_fn, its, mname = fn.split('|')
+                    vc = driver.gen_iface_impl(prog, cs, impl_fn, (its, mname))
                 else:
                     vc = driver.gen(prog, cs, fn)
             except (Unsupported, ContractError, SpecError) as e:
@@ -116,6 +119,17 @@ class Checker:
             for k in vc.used_contracts:
                 if isinstance(k, str) and k not in vcs and k in cs.funcs and not cs.funcs[k].trusted:
                     todo.append(k)
+                if isinstance(k, tuple):
+                    # interface contract assumed at a call: every implementation in the module must satisfy it
+                    its, mname = k
+                    for recv in prog.implementors(its):
+                        impl_fn = prog.method_fn(recv, mname)
+                        if impl_fn and impl_fn in prog.funcs and not prog.funcs[impl_fn].synthetic:
+                            key = 'iface|%s|%s|%s' % (impl_fn, its, mname)
+                            if key not in vcs:
+                                todo.append(key)
+                            if impl_fn not in vcs and impl_fn in cs.funcs:
+                                todo.append(impl_fn)
         if errors:
             # a contract that no longer fits the code (restructured loop, renamed loop variable, unsupported
             # construct) cannot decide anything. Stand-in: the family's bounded check of the real code; only a
@@ -277,6 +291,10 @@ class Checker:
         for v in vac:
             print('VACUITY: %s' % v)
         self.write_evidence(vcs, results, discharged, violations, kf_hits, wd)
+        slow = sorted(results, key=lambda x: -x[2]['time'])[:5]
+        if slow and slow[0][2]['time'] > 3:
+            print('slowest obligations: ' + '; '.join('%.1fs %s' % (r['time'], o.name[:90]) for _, o, r in slow))
+        print('phases: load %.1fs, total %.1fs' % (prog.load_time, time.time() - self.t0))
         n_claimed = len(results) - len(kf_hits)
         print('%s: %d functions under contract, %d obligations, %d discharged, %d known findings, %d violations, %.1fs'
               % (pid, len(vcs), n_claimed, len(discharged), len(kf_hits), len(violations), time.time() - self.t0))
